@@ -15,7 +15,10 @@ Inductive case04 :=
 | CGUnify (u v : term) (s : subst) (nstates : nat) (s' : subst)    (* EqualO(u,v) on state s: number of states written, bindings of the result *)
 (* the same observation, with the Go values written as reflecttools sees them (Reflect.gval, registered pointers as gvar i):
    checked against the TRANSCRIBED gomini algorithm GCore.gunify (walk / CastVar / hasCycle / isLeaf / ZipReduce) *)
-| CGCore (x y : gval) (s : gsub) (nstates : nat) (s' : gsub) (u v : term) (ts : subst) (ts' : subst).
+| CGCore (x y : gval) (s : gsub) (nstates : nat) (s' : gsub) (u v : term) (ts : subst) (ts' : subst)
+(* a sequence of EqualO calls threaded through the state (values with interface-typed slots, bindings to the untyped nil):
+   1 state at the end, or 0 as soon as one call fails; against the fold of GCore.gunify *)
+| CGSeq (eqs : list (gval * gval)) (nstates : nat).
 
 Definition check_gunify_terms (u v : term) (s : subst) (n : nat) (s' : subst) : bool :=
   match unify F01 u v s with
@@ -39,5 +42,11 @@ Definition check04 (c : case04) : bool :=
           end
       | GRFail, Some _, Some _, Some _, Some _ => Nat.eqb n 0
       | _, _, _, _, _ => false
+      end
+  | CGSeq eqs n =>
+      match fold_left (fun acc e => match acc with GROk s => gunify F01 (fst e) (snd e) s | other => other end) eqs (GROk []) with
+      | GROk _ => Nat.eqb n 1
+      | GRFail => Nat.eqb n 0
+      | GROOF => false
       end
   end.
